@@ -253,9 +253,41 @@ func (dec *Decoder) DiscardLine() {
 	if dec.crlf {
 		return
 	}
-	var text string
-	dec.Text(&text)
-	dec.CRLF()
+	for {
+		var text string
+		dec.Text(&text)
+		if !dec.CRLF() {
+			return
+		}
+		// A non-synchronizing literal continues the command on the next
+		// line: the peer sends its payload without waiting, so it needs to
+		// be discarded as well instead of being interpreted as a new command
+		size, ok := nonSyncLiteralSuffix(text)
+		if dec.side != ConnSideServer || !ok {
+			return
+		}
+		if _, err := io.CopyN(io.Discard, dec.r, size); err != nil {
+			return
+		}
+		dec.crlf = false
+	}
+}
+
+// nonSyncLiteralSuffix checks whether a line ends with a non-synchronizing
+// literal header ("{<size>+}").
+func nonSyncLiteralSuffix(line string) (size int64, ok bool) {
+	if !strings.HasSuffix(line, "+}") {
+		return 0, false
+	}
+	i := strings.LastIndexByte(line, '{')
+	if i < 0 {
+		return 0, false
+	}
+	size, err := strconv.ParseInt(line[i+1:len(line)-2], 10, 64)
+	if err != nil || size < 0 {
+		return 0, false
+	}
+	return size, true
 }
 
 func (dec *Decoder) DiscardValue() bool {
@@ -398,6 +430,9 @@ func (dec *Decoder) ExpectAString(ptr *string) bool {
 	}
 	if dec.Literal(ptr) {
 		return true
+	}
+	if dec.err != nil {
+		return false // e.g. refused literal
 	}
 	// TODO: accept unquoted resp-specials
 	return dec.ExpectAtom(ptr)
@@ -562,8 +597,14 @@ func (dec *Decoder) Literal(ptr *string) bool {
 	}
 	if dec.CheckBufferedLiteralFunc != nil {
 		if err := dec.CheckBufferedLiteralFunc(lit.Size(), nonSync); err != nil {
+			if nonSync {
+				// The peer doesn't wait for our verdict: skip the payload
+				// so that it isn't interpreted as the rest of the command
+				io.Copy(io.Discard, lit)
+				dec.crlf = false
+			}
 			lit.cancel()
-			return false
+			return dec.returnErr(err)
 		}
 	}
 	var sb strings.Builder
